@@ -577,7 +577,9 @@ func Check(p Property, e *Env) int {
 			fmt.Printf("INFRA %s: cannot start worker %d: %v\n", id, i, err)
 			return 2
 		}
+		mu.Lock()
 		running[i] = true
+		mu.Unlock()
 		go func(i int) {
 			err := cmds[i].Wait()
 			mu.Lock()
@@ -687,6 +689,13 @@ func Check(p Property, e *Env) int {
 	if len(confirmed) > 0 {
 		// VIOLATION lines were printed by the replay processes above
 		return 1
+	}
+	// runs abandoned because a bound of the simulator was hit must stay the exception
+	for name, hits := range merged.Probes {
+		if strings.HasPrefix(name, "no_verdict_") && strings.HasSuffix(name, "_bound") && merged.Runs > 0 && hits*20 > merged.Runs {
+			fmt.Printf("INFRA %s: %d of %d runs ended without a verdict (%s): too many to call the property held\n", id, hits, merged.Runs, name)
+			return 2
+		}
 	}
 	// 5. dead probes: the workload must reach what it claims to reach
 	req := desc.RequiredProbesQuick
